@@ -12,7 +12,7 @@ from fractions import Fraction as F
 import numpy as np
 
 from rv.core import ctx as _ctx
-from rv.core import instrument
+from rv.core import instrument, scribble
 from rv.core.tolerances import OPEN_END_EPS
 
 ANCHORS = ("arrays/operations.py", "arrays/dimensions.py")
@@ -380,19 +380,17 @@ def judge_content(ctx, op, start, step, n, content, fill, k_left, k_right, with_
     """Samples are located by coordinate, so their values may be anything (NaN, inf, the fill value itself)."""
     from soundevent.arrays import operations as O
 
-    arr = _content(_mk(start, step, n, with_attr, two_d), content)
-    coords = np.asarray(arr.time.data)
-    orig = np.asarray(arr.data)
-    spec = {"kind": "content", "op": op, "start": start, "step": step, "n": n, "content": content, "fill": fill if fill == fill else "nan",
-            "k_left": k_left, "k_right": k_right, "attr": with_attr, "two_d": two_d}
-    try:
+    def run_op():
+        arr = _content(_mk(start, step, n, with_attr, two_d), content)
+        coords = np.asarray(arr.time.data)
+        mid_new = set()
         if op == "extend_dim":
             res = O.extend_dim(arr, "time", start=float(coords[0] - k_left * step) if k_left else None, stop=float(coords[-1] + (k_right + 0.5) * step), fill_value=fill)
         elif op == "extend_twice":
             mid = O.extend_dim(arr, "time", stop=float(coords[-1] + (k_right + 0.5) * step), fill_value=float("nan"))
             res = O.extend_dim(mid, "time", stop=float(coords[-1] + (2 * k_right + 1.5) * step), fill_value=fill)
             if not (np.asarray(mid.time.data)[: len(coords)] == coords).all():
-                return
+                return arr, None, mid_new
             mid_new = {float(c) for c in np.asarray(mid.time.data)[len(coords):]}
         elif op == "crop_dim":
             res = O.crop_dim(arr, "time", start=float(coords[min(k_left, n - 1)]), stop=None)
@@ -400,9 +398,34 @@ def judge_content(ctx, op, start, step, n, content, fill, k_left, k_right, with_
             width = n + k_left + k_right if op != "crop_dim_width" else max(1, n - max(1, k_left))
             kw = {} if op == "crop_dim_width" else {"fill_value": fill}
             res = getattr(O, op)(arr, "time", width, **kw)
+        return arr, res, mid_new
+
+    spec = {"kind": "content", "op": op, "start": start, "step": step, "n": n, "content": content, "fill": fill if fill == fill else "nan",
+            "k_left": k_left, "k_right": k_right, "attr": with_attr, "two_d": two_d}
+    try:
+        arr, res, mid_new = run_op()
     except Exception as e:
         ctx.violate_exc("content:raises", f"content:raises:{op}:{type(e).__name__}", e, spec=spec)
         return
+    if res is None:
+        return
+    coords = np.array(arr.time.data, copy=True)
+    orig = np.array(arr.data, copy=True)      # (crop results are views of the input: editing them edits the input)
+    if ctx.every(spec, 3):
+        # the caller owns the result: it overwrites it in place; the same operation on a fresh, equal array is unaffected
+        snap = (np.array(res.time.data, copy=True), np.array(res.data, copy=True), np.array(arr.data, copy=True))
+        try:
+            if scribble.scribble(res):
+                ctx.mon("repeat_after_result_edit")
+                if not np.array_equal(np.asarray(arr.data), snap[2], equal_nan=True):
+                    ctx.note("editing_the_result_changed_the_input_array")
+                _, res, mid_new = run_op()
+                if res is None or not (np.array_equal(np.asarray(res.time.data), snap[0]) and np.array_equal(np.asarray(res.data), snap[1], equal_nan=True)):
+                    ctx.violate("content:repeat_differs", f"content:repeat_differs_after_result_edit:{op}", observed="second result differs from the first", expected="equal results for equal inputs", spec=spec)
+                    return
+        except Exception as e:
+            ctx.violate_exc("content:raises", f"content:raises_on_repeat:{op}:{type(e).__name__}", e, spec=spec)
+            return
     ctx.mon("content.oracle")
     gc = np.asarray(res.time.data)
     got = np.asarray(res.data)
